@@ -833,6 +833,52 @@ mut('C09', 'stop_without_running_check', J, """	if latestStatus.Status != dagsch
 """, """	_ = latestStatus
 """)
 
+# ---- socket address / history directory are functions of the DAG file's full path (C16, C06, C18, C05, C20)
+DG = 'internal/dag/dag.go'
+mut('C16', 'socket_address_per_time_of_call', DG, """	return filepath.Join("/tmp", fmt.Sprintf("@blackdagger-%s-%x.sock", name, bs))""",
+    """	return filepath.Join("/tmp", fmt.Sprintf("@blackdagger-%s-%x-%d.sock", name, bs, time.Now().Unix()))""")
+mut('C16', 'socket_address_from_file_name_only', DG, """	_, _ = h.Write([]byte(s))
+	bs := h.Sum(nil)""", """	_, _ = h.Write([]byte(name))
+	bs := h.Sum(nil)""")
+mut('C16', 'probe_addresses_another_socket', 'internal/client/client.go', """func (*client) GetCurrentStatus(workflow *dag.DAG) (*model.Status, error) {
+	client := sock.NewClient(workflow.SockAddr())""", """func (*client) GetCurrentStatus(workflow *dag.DAG) (*model.Status, error) {
+	client := sock.NewClient((&dag.DAG{Location: workflow.Name}).SockAddr())""")
+mut('C16', 'run_listens_on_a_socket_named_after_the_dag_name', 'internal/agent/agent.go', """		a.dag.SockAddr(),""", """		(&dag.DAG{Location: a.dag.Name}).SockAddr(),""")
+mut('C20', 'stop_request_goes_to_the_status_endpoint', 'internal/client/client.go', """	_, err := client.Request("POST", "/stop")
+	return err""", """	_, err := client.Request("POST", "/status")
+	return err""")
+mut('C06', 'history_directory_from_file_name_only', 'internal/persistence/jsondb/jsondb.go', """	_, _ = h.Write([]byte(name))""", """	_, _ = h.Write([]byte(filepath.Base(name)))""")
+mut('C18', 'history_directory_without_hash', 'internal/persistence/jsondb/jsondb.go', """	return filepath.Join(s.location, fmt.Sprintf("%s-%s", prefix, v))""", """	_ = v
+	return filepath.Join(s.location, prefix)""")
+
+# ---- status words (C08, C04, C02, C20)
+mut('C08', 'failed_run_is_shown_as_finished', S, """	case StatusError:
+		return "failed"
+	case StatusCancel:
+		return "canceled"
+	case StatusSuccess:
+""", """	case StatusError:
+		return "finished"
+	case StatusCancel:
+		return "canceled"
+	case StatusSuccess:
+""")
+mut('C08', 'skipped_step_is_shown_as_finished', N, """		return "skipped"
+""", """		return "finished"
+""")
+mut('C08', 'node_record_text_is_always_finished', 'internal/persistence/model/node.go', """		StatusText: node.State.Status.String(),""", """		StatusText: scheduler.NodeStatusSuccess.String(),""")
+mut('C08', 'corrected_status_keeps_the_word_running', 'internal/persistence/model/status.go', """		st.StatusText = st.Status.String()""", """		st.StatusText = scheduler.StatusRunning.String()""")
+mut('C20', 'edited_step_keeps_its_old_word', 'internal/frontend/dag/handler.go', """	status.Nodes[idxToUpdate].StatusText = to.String()
+""", "")
+
+# ---- the goroutine spawned for a due entry invokes that entry (C09)
+mut('C09', 'spawned_goroutine_skips_restart_entries', 'internal/scheduler/scheduler.go', """		go func(e *entry) {
+			if err := e.Invoke(); err != nil {""", """		go func(e *entry) {
+			if e.EntryType == entryTypeRestart {
+				return
+			}
+			if err := e.Invoke(); err != nil {""")
+
 def main():
     import glob
     for f in glob.glob(V + '/C*/*.patch'):
